@@ -45,6 +45,12 @@ DIRECTED = [
     'bool !ok(int a, int i) { !truth_is_defeat(i == a); return i > 1; }\nempty @is_you(int a, int b) {\n  for (int i = 0; i < 5; i += 1) {\n    bool[] m = [true, false, true]; int d[i + 1];\n'
     '    try { if (!ok(a, i)) { write("y"); } continue; } undo { write("u"); }\n    write(m[0]); d[0] = i;\n  }\n  int k = 0;\n  while (k < 4) { k += 1; string[] ss = ["p", "q"];\n'
     '    try { m2(k); bool t = !ok(b, k); write(t); break; } stop { write("S"); } write(ss[0]); }\n  write(k);\n}\nempty m2(int k) { int[] loc = [k, k]; write(loc[1]); }\n',
+    # a loop as the LAST statement of a block that owns arrays, with arrays declared in the loop body that falls through (an enclosing
+    # clean-up following the loop does not make the per-iteration release redundant); for loops whose initialiser declares an array
+    'empty @is_you(int a, int b) {\n  int total = 0;\n  { int[] own = [a, b, 7]; int k = 0;\n    while (k < 6 + a) { int scratch[b + 2]; byte[] tag = [\'t\', \'u\']; scratch[0] = k; total += scratch[0] + own[2]; write(k); k += 1; }\n  }\n'
+    '  { byte pad[a + 1]; for (int[] it = [0, 5 + b]; it[0] < it[1]; it[0] += 1) { int tmp[3]; tmp[2] = it[0]; total += tmp[2]; write(\'i\'); } }\n  write(total); int[] z = [4]; write(z[0]);\n}\n',
+    'int spin(int a, int b) { bool[] m = [true, false, true]; int n = 0; while (true) { int q[a + 1]; q[0] = n; n += 1; write(\'q\'); if (n > 5 + b) { return n + q[0]; } } }\n'
+    'empty @is_you(int a, int b) { write(spin(a, b)); if (a > 1) { string[] ss = ["x", "y"]; int j = 0; while (j < 4) { int w[2]; w[1] = j; j += 1 + w[1]; write(\'w\'); } write(j); } write(spin(b, a)); }\n',
 ]
 
 
